@@ -110,6 +110,9 @@ class KroneckerProductLinearOperator(LinearOperator):
 
             return SumKroneckerLinearOperator(self, other)
         if isinstance(other, DiagLinearOperator):
+            if torch.broadcast_shapes(self.batch_shape, other.batch_shape) != self.batch_shape:
+                # add_diagonal cannot enlarge the batch shape of self: use the generic sum, which broadcasts
+                return super().__add__(other)
             return self.add_diagonal(other._diagonal())
         return super().__add__(other)
 
